@@ -38,6 +38,18 @@ from vlib import tools
 from vlib.core import Check, Discard, Inconclusive, OracleSplit, Violation
 from vlib.elf import SHT_STRTAB, SHT_SYMTAB, Elf
 
+def _retry(fn, *a, **kw):
+    """Assembler/archiver invocations are killed by the 60 s tool timeout when the machine is badly
+    oversubscribed; that says nothing about the property, so try again before giving up."""
+    for attempt in range(3):
+        try:
+            return fn(*a, **kw)
+        except Inconclusive:
+            if attempt == 2:
+                raise
+
+
+
 _libc = ctypes.CDLL(ctypes.util.find_library("c") or "libc.so.6")
 _libc.fnmatch.argtypes = [ctypes.c_char_p, ctypes.c_char_p, ctypes.c_int]
 _libc.fnmatch.restype = ctypes.c_int
@@ -511,11 +523,11 @@ class C15(Check):
             raise Discard("empty case")
         direct, members = [], []
         for oi, o in enumerate(objs):
-            tools.asm(render_obj(case, oi), o["name"], cwd=d)
+            _retry(tools.asm, render_obj(case, oi), o["name"], cwd=d)
             (members if o["archive"] else direct).append(o["name"])
         args = ["--gc-sections" if case["gc"] else "--no-gc-sections", "-T", "s.ld", *direct]
         if members:
-            tools.ar("lib0.a", members, cwd=d)
+            _retry(tools.ar, "lib0.a", members, cwd=d)
             import os
             for m in members:
                 os.unlink(f"{d}/{m}")
